@@ -253,6 +253,23 @@ def check_step_dt_history(case, ctx):
             q = np.asarray(out.value, float)
             ctx.le("a call without dt steps by the instance's sampling period, whatever dt an earlier call on the instance was given",
                    np.abs(q / np.linalg.norm(q) - ref).max(), 1e-12, {"got": q, "expected": ref, "Dt": dt, "dt_of_earlier_call": other}, route=r)
+    # the step size handed to one full update (valid field samples, correction included) = the same update on an instance built with that step:
+    # whichever way the filter is told its sampling period, the prediction integrates over it
+    a_ok, m_ok = np.array([0.3, -0.2, 9.7]), np.asarray(m, float)
+    for r, mk, step in (("first-order/Madgwick.updateIMU", lambda **k: F.Madgwick(**k), lambda f, **k: f.updateIMU(q0.copy(), w.copy(), a_ok.copy(), **k)),
+                        ("first-order/Madgwick.updateMARG", lambda **k: F.Madgwick(**k), lambda f, **k: f.updateMARG(q0.copy(), w.copy(), a_ok.copy(), m_ok.copy(), **k)),
+                        ("first-order/Mahony.updateIMU", lambda **k: F.Mahony(**k), lambda f, **k: f.updateIMU(q0.copy(), w.copy(), a_ok.copy(), **k)),
+                        ("first-order/Mahony.updateMARG", lambda **k: F.Mahony(**k), lambda f, **k: f.updateMARG(q0.copy(), w.copy(), a_ok.copy(), m_ok.copy(), **k)),
+                        ("first-order/AQUA.updateIMU", lambda **k: F.AQUA(**k), lambda f, **k: f.updateIMU(q0.copy(), w.copy(), a_ok.copy(), **k)),
+                        ("first-order/AQUA.updateMARG", lambda **k: F.AQUA(**k), lambda f, **k: f.updateMARG(q0.copy(), w.copy(), a_ok.copy(), m_ok.copy(), **k)),
+                        ("first-order/EKF.f", lambda **k: F.EKF(**k), lambda f, **k: f.update(q0.copy(), w.copy(), a_ok.copy(), m_ok.copy(), **k)),
+                        ("first-order/EKF.f", lambda **k: F.EKF(**k), lambda f, **k: f.update(q0.copy(), w.copy(), a_ok.copy(), **k)),
+                        ("first-order/ROLEQ.attitude_propagation", lambda **k: F.ROLEQ(**k), lambda f, **k: f.update(q0.copy(), w.copy(), a_ok.copy(), m_ok.copy(), **k))):
+        out = call(lambda: (np.asarray(step(mk(Dt=other), dt=dt), float), np.asarray(step(mk(Dt=dt)), float), np.asarray(step(mk(frequency=1.0 / dt)), float)))
+        if ctx.returned(out, clause="no-exception[full update, dt per call / per instance]", route=r):
+            per_call, per_inst, per_freq = out.value
+            ctx.le("a full update told its step per call equals the update of an instance built with that step (Dt= or frequency=)",
+                   float(max(np.abs(per_call - per_inst).max(), np.abs(per_freq - per_inst).max())), 1e-13, {"dt": dt, "Dt_of_the_instance": other, "per_call": per_call, "per_instance": per_inst}, route=r)
     # mixed entry points: updateIMU with dt, then updateMARG without
     out = call(lambda: (lambda f: (f.updateIMU(q0.copy(), w.copy(), z.copy(), dt=other), f.updateMARG(q0.copy(), w.copy(), z.copy(), m.copy()))[1])(F.Madgwick(Dt=dt)))
     if ctx.returned(out, clause="no-exception[dt given on an earlier call only]", route="first-order/Madgwick.updateMARG"):
